@@ -15,8 +15,11 @@
       [glob_ok p] = glob.Compile(p) succeeds.
     The harness computes both with the real libraries for every string of a case.
 
-    Faithful to the code, defects included: [add_route] lower-cases the host,
-    [del_route] and [weigh_route] do NOT.  No proofs in this file. *)
+    Faithful to the code: [add_route], [del_route] and [weigh_route] all lower-case the host.
+    Until /repo commit b80fb7f delRoute and weighRoute did NOT (finding F-C05-1, fixed); that
+    behaviour is kept as [del_route_unrepaired] / [weigh_route_unrepaired] (and
+    [apply_def_unrepaired], [run_unrepaired]) for the refutation theorems only.
+    No proofs in this file. *)
 From Coq Require Import List NArith Bool.
 From Fabio Require Import Lib.Outcome Lib.Bytes Model.WtF64.
 Import ListNotations.
@@ -176,9 +179,21 @@ Section Env.
       end
     end end end.
 
-  (* ---- Table.weighRoute (table.go:196-211) ---- *)
+  (* ---- Table.weighRoute (table.go:196-212) ---- *)
   Definition weigh_route (t : table) (d : def) : outcome table :=
-    let '(host, path) := hostpath (d_src d) in       (* no ToLower here *)
+    let '(host0, path) := hostpath (d_src d) in
+    let host := lower host0 in                       (* host = strings.ToLower(host), since b80fb7f *)
+    match d_src d with [] => Err e_invalid_prefix | _ =>
+    match get_route host path t with
+    | None => Err e_no_match
+    | Some r =>
+        if count_match (d_svc d) (d_tags d) r =? 0 then Err e_no_match
+        else Ok (upd_host host (upd_route path (set_weight (d_svc d) (d_w d) (d_tags d))) t)
+    end end.
+
+  (* weighRoute before b80fb7f: the host is looked up as written *)
+  Definition weigh_route_unrepaired (t : table) (d : def) : outcome table :=
+    let '(host, path) := hostpath (d_src d) in
     match d_src d with [] => Err e_invalid_prefix | _ =>
     match get_route host path t with
     | None => Err e_no_match
@@ -202,7 +217,35 @@ Section Env.
       match d_src d, d_dst d with
       | [], [] => Ok (sweep (filter_all (del_svc_sel d) t))
       | _, [] =>
-          let '(host, path) := hostpath (d_src d) in   (* no ToLower here *)
+          let '(host0, path) := hostpath (d_src d) in
+          let host := lower host0 in                    (* strings.ToLower(host), since b80fb7f *)
+          match get_route host path t with
+          | None => Ok t                                (* return nil before the sweeps *)
+          | Some _ => Ok (sweep (filter_one host path (del_svc_sel d) t))
+          end
+      | _, _ =>
+          match canon (d_dst d) with
+          | None => Err e_url
+          | Some url =>
+              let '(host0, path) := hostpath (d_src d) in
+              let host := lower host0 in
+              match get_route host path t with
+              | None => Ok t
+              | Some _ => Ok (sweep (filter_one host path (del_dst_sel d url) t))
+              end
+          end
+      end
+    end.
+
+  (* delRoute before b80fb7f: the host is looked up as written *)
+  Definition del_route_unrepaired (t : table) (d : def) : outcome table :=
+    match d_tags d with
+    | _ :: _ => Ok (sweep (filter_all (del_tags_sel d) t))
+    | [] =>
+      match d_src d, d_dst d with
+      | [], [] => Ok (sweep (filter_all (del_svc_sel d) t))
+      | _, [] =>
+          let '(host, path) := hostpath (d_src d) in   (* the host as written *)
           match get_route host path t with
           | None => Ok t                                (* return nil before the sweeps *)
           | Some _ => Ok (sweep (filter_one host path (del_svc_sel d) t))
@@ -235,6 +278,20 @@ Section Env.
     end.
 
   Definition run (ds : list def) : outcome table := run_from [] ds.
+
+  (* the same loop over the pre-b80fb7f del / weight (refutation theorems only) *)
+  Definition apply_def_unrepaired (t : table) (d : def) : outcome table :=
+    match d_cmd d with
+    | CmdAdd => add_route t d
+    | CmdDel => del_route_unrepaired t d
+    | CmdWeight => weigh_route_unrepaired t d
+    end.
+  Fixpoint run_from_unrepaired (t : table) (ds : list def) : outcome table :=
+    match ds with
+    | [] => Ok t
+    | d :: ds' => do t' <- apply_def_unrepaired t d; run_from_unrepaired t' ds'
+    end.
+  Definition run_unrepaired (ds : list def) : outcome table := run_from_unrepaired [] ds.
 End Env.
 
 (* ---- the final sort.Sort(h) of NewTable: routes by path, descending.  Paths of one host
